@@ -167,10 +167,13 @@ def _prod_sample(parts: list[list], cap: int, rng: random.Random) -> list[tuple]
 
 
 def bounded_contract(c: Contract, tier: str, seed: int, gen: Callable | None = None, call=None,
-                     bounds: dict | None = None) -> dict:
-    """Evaluate contract c on the real function over a small scope.  Labelled *bounded* in the evidence."""
-    fn, kind = resolve_real(c)
-    rng = random.Random(seed * 7919 + hash(c.qualname) % 1000)
+                     bounds: dict | None = None, fn: Callable | None = None) -> dict:
+    """Evaluate contract c on the real function over a small scope.  Labelled *bounded* in the evidence.
+    (`fn` is only passed by tools/mutation_selftest.py, to evaluate a mutant instead of the real function.)"""
+    if fn is None:
+        fn, kind = resolve_real(c)
+    import zlib
+    rng = random.Random(seed * 7919 + zlib.crc32(c.qualname.encode()) % 1000)
     cap = 4000 if tier == "quick" else 40000
     b = dict(bounds or {})
     if gen is not None:
